@@ -86,6 +86,7 @@ def parseOp (s : String) : Option Op :=
   | ["dump"] => some .dump
   | ["commit"] => some .commit
   | ["rollback"] => some .rollback
+  | ["cfail"] => some .commitRaise
   | _ => none
 
 def parseOps (s : String) : Option (List Op) :=
